@@ -20,7 +20,7 @@ def get_cases(chk, quick, seed, n_pairs_quick=110, n_sim_quick=30, n_sim_thoroug
         # fixed corner pairs (feature interactions that seeded changes showed to matter) + a seeded sample
         corners = [{'f_map', 's_flatten'}, {'s_required', 'o_rest'}, {'s_required', 'o_grpc_rest'}, {'m_raw_operation', 'o_mixins'},
                    {'f_deppkg', 'm_dep_request'}, {'o_ads', 's_flatten'}, {'o_rest', 'm_paged_map'}, {'f_crossfile', 's_flatten'},
-                   {'f_crossfile', 'o_ads'}, {'f_crossfile', 'f_nested'}]
+                   {'f_crossfile', 'o_ads'}, {'f_crossfile', 'f_nested'}, {'m_kw', 's_api_version'}, {'s_api_version', 'o_grpc_rest'}]
         fixed = [c for c in pairs if set(c['features']) in corners]
         rest = [c for c in pairs if set(c['features']) not in corners]
         cases = singles + fixed + rnd.sample(rest, min(n_pairs_quick, len(rest)))
@@ -63,6 +63,7 @@ def run_case(case, want_import=True, keep_tree=None):
                 except Exception as e:
                     bad.append(f'{f.name}: bad JSON {e}'[:200])
         obs['syntax_errors'] = bad
+        obs['setup'] = setup_projection(res)
         obs['n_py'] = sum(1 for f in res.file if f.name.endswith('.py'))
         obs['n_json'] = sum(1 for f in res.file if f.name.endswith('.json'))
         obs['names'] = [f.name for f in res.file]
@@ -73,6 +74,68 @@ def run_case(case, want_import=True, keep_tree=None):
                     pipeline.write_pb2(fdp, out)
             obs['import'] = pipeline.import_probe(out, features.module_of(case['features']))
     return obs
+
+
+def setup_projection(res):
+    """declared runtime dependencies (setup.py: `dependencies`, `extras`) and the third-party modules the emitted package
+    imports unconditionally (imports inside try blocks are optional).  Pure projection of the response."""
+    import ast, re, sys
+    deps, extras, imports = None, [], set()
+    for f in res.file:
+        if not f.name.endswith('.py'):
+            continue
+        try:
+            t = ast.parse(f.content)
+        except SyntaxError:
+            continue
+        if f.name == 'setup.py':
+            for n in ast.walk(t):
+                if isinstance(n, ast.Assign) and isinstance(n.targets[0], ast.Name):
+                    if n.targets[0].id == 'dependencies' and isinstance(n.value, ast.List):
+                        deps = [re.split(r'[ <>=!;]', e.value.strip())[0] for e in n.value.elts if isinstance(e, ast.Constant)]
+                    if n.targets[0].id == 'extras' and isinstance(n.value, ast.Dict):
+                        extras = [k.value for k in n.value.keys if isinstance(k, ast.Constant)]
+            continue
+        if f.name.split('/')[0] in ('tests', 'docs', 'samples', 'scripts', 'testing') or '/' not in f.name:
+            continue
+
+        def visit(node, guarded):
+            for ch in ast.iter_child_nodes(node):
+                g = guarded or isinstance(node, ast.Try)
+                if isinstance(ch, ast.Import) and not g:
+                    imports.update(a.name for a in ch.names)
+                elif isinstance(ch, ast.ImportFrom) and not g and ch.level == 0 and ch.module:
+                    imports.add(ch.module)
+                visit(ch, g)
+        visit(t, False)
+    std = set(sys.stdlib_module_names)
+    third = sorted(m for m in imports if m.split('.')[0] not in std)
+    return dict(dependencies=deps, extras=extras, imports=third)
+
+
+PROVIDED_BY = [   # module prefix -> distribution that must be declared (googleapis-common-protos, grpcio and requests come with google-api-core[grpc])
+    ('google.api_core', 'google-api-core[grpc]'), ('google.api', 'google-api-core[grpc]'), ('google.rpc', 'google-api-core[grpc]'),
+    ('google.type', 'google-api-core[grpc]'), ('google.longrunning', 'google-api-core[grpc]'), ('google.cloud.location', 'google-api-core[grpc]'),
+    ('google.logging', 'google-api-core[grpc]'), ('grpc', 'google-api-core[grpc]'), ('requests', 'google-api-core[grpc]'),
+    ('google.auth', 'google-auth'), ('google.oauth2', 'google-auth'), ('proto', 'proto-plus'), ('google.protobuf', 'protobuf'), ('google.protobuf', 'proto-plus'), ('google.protobuf', 'google-api-core[grpc]'),   # all three require protobuf
+    ('google.iam.v1', 'grpc-google-iam-v1')]
+
+
+def undeclared_imports(setup, own_prefixes):
+    """third-party modules imported unconditionally by the emitted package that no declared dependency provides."""
+    if not setup or setup.get('dependencies') is None:
+        return ['setup.py declares no `dependencies` list']
+    declared = set(setup['dependencies'])
+    out = []
+    for m in setup['imports']:
+        if any(m == p or m.startswith(p + '.') for p in own_prefixes):
+            continue
+        hit = [d for pre, d in PROVIDED_BY if m == pre or m.startswith(pre + '.')]
+        if not hit:
+            out.append(f'{m}: provided by no distribution the generator knows')
+        elif not any(d in declared for d in hit):
+            out.append(f'{m}: needs {hit[0]}, declared: {sorted(declared)}')
+    return out
 
 
 def _init():
